@@ -292,6 +292,26 @@ def run_unit(ctx, u):
         return
 
     if kind == "masks":
+        # the documented `dtype` option of the encoder (computation dtype): clean LLRs still decode to the message
+        for dt in (torch.float64, torch.int64, torch.int32):
+            for N, k in ((8, 4), (16, 11), (32, 9)):
+                for regime in ("sum_product", "min_sum"):
+                    ctx.case("dtype", str(dt), N, k, regime)
+                    try:
+                        enc = make(N, k, True, False, dtype=dt)
+                        msgs = torch.tensor([[rng.getrandbits(1) for _ in range(k)] for _ in range(6)], dtype=torch.float32)
+                        cw = enc(msgs).to(torch.float32)
+                        sc = D.SuccessiveCancellationDecoder(enc, regime=regime)
+                    except Exception:  # noqa: BLE001
+                        ctx.skip(f"encoder dtype {str(dt).replace('torch.', '')} rejected")
+                        continue
+                    for A in (0.5, 4.0):
+                        try:
+                            out = sc((1 - 2 * cw) * A)
+                            ok = tuple(out.shape) == tuple(msgs.shape) and bool((out.double() == msgs.double()).all())
+                            ctx.check(ok, "SC clean decode", f"SuccessiveCancellationDecoder|encoder dtype option,{regime}|SC clean decode|wrong message", N=N, k=k, A=A, dtype=str(dt), decoded=out[0], message=msgs[0])
+                        except Exception as e:  # noqa: BLE001
+                            ctx.violation(f"SuccessiveCancellationDecoder|encoder dtype option,{regime}|SC clean decode|raised:{type(e).__name__}", N=N, k=k, dtype=str(dt), error=str(e)[:200])
         for N in (4, 8, 16, 32):
             m = N.bit_length() - 1
             G = kron_power(m)
